@@ -73,19 +73,20 @@ MANIFEST_PART = {
     "C06": {"text": ("RTU/binary half: theorems over all chunkings (lists of arbitrary chunks, empty ones included): after the "
                      "repairs to the RTU receive loop, RTU delivery is fully chunking-independent for every class with a "
                      "prefix-stable size rule (any cuts, several frames per read, frames of units not served skipped; still "
-                     "refuted for Read Device Identification responses); binary only for cuts at frame boundaries or one "
-                     "byte into a frame and delimiter-free frames (refuted otherwise); both while loops proved terminating."),
+                     "refuted for Read Device Identification responses); binary for reads that complete any number "
+                     "of whole delimiter-free frames and leave at most one byte of the next (a read ending deeper inside a frame, delimiters "
+                     "in the frame and frames behind a frame for a unit not served are refuted); both while loops proved terminating."),
             "note": "Trusted as for C03; correspondence runs all cut sets of short streams on the real framers."},
     "C07": {"text": ("RTU/binary half: gate theorems for every receiver state and input (each message delivered anywhere in "
-                     "the RTU drain loop is justified by a span of the received bytes whose bitwise CRC-16 matches; binary: "
-                     "first delivery of a call when the buffer starts with '{', unrestricted gate refuted: stale start), and detection-power "
+                     "the RTU drain loop is justified by a span of the received bytes whose bitwise CRC-16 matches; binary: every "
+                     "delivery of a call is the unit + PDU between a '{' and the next '}' with matching CRC, junk in front costs nothing), and detection-power "
                      "theorems about the CRC itself: xor-linearity, every odd number of flipped bits at any length, "
                      "every double-bit error in frames < 32767 bits, every burst <= 16 bits."),
             "note": "Trusted as for C03; the reference receiver (spec side) judges what the real framers delivered."},
     "C11": {"text": ("RTU/binary half: on the request table, for every buffer content and arrival pattern a normally returning "
                      "call leaves fewer than 268 bytes buffered (explicit bound = largest extent of the size oracle) and every "
                      "delivery is CRC-justified; from the synchronised state valid frames in any grouping are all delivered; "
-                     "response table refuted (FIFO 16 MB extent, MEI); binary partial (delimiter-free frames, one per read)."),
+                     "response table refuted (FIFO 64 KB extent, MEI); binary partial (delimiter-free frames, any number per read)."),
             "note": "Trusted as for C03; garbage-then-valid-traffic runs on the real framers."},
 }
 
